@@ -5,6 +5,7 @@ import (
 	"go/constant"
 	"go/token"
 	"go/types"
+	"regexp"
 	"strings"
 
 	"golang.org/x/tools/go/ssa"
@@ -473,4 +474,11 @@ func RetVal(r *ssa.Return, i int) ssa.Value {
 		}
 	}
 	return v
+}
+
+var regRe = regexp.MustCompile(`%?t\d+(@[\w$]+)?`)
+
+// StablePath is Path with SSA register names removed, for use in obligation keys.
+func StablePath(v ssa.Value) string {
+	return regRe.ReplaceAllString(Path(v), "_")
 }
